@@ -242,6 +242,18 @@ func (w *World) VerifyWith(u *Unit, classes map[string][]string) (res *UnitResul
 		}
 		cell.T = fv.Type()
 		st.regs[fv] = cell
+		if a := allocOfFreeVar(fv); a != nil && addrPrivate(a, 0) {
+			// a captured variable that only the enclosing function and its closures can reach
+			if st.localCells == nil {
+				st.localCells = map[string][]smt.Term{}
+			}
+			elem := a.Type().(*types.Pointer).Elem()
+			for _, l := range e.leaves(elem) {
+				k := objKeyPrefix(elem) + l.Path
+				e.regKey(k, smt.Ref, l.Sort)
+				st.localCells[k] = append(st.localCells[k], cell.L[0])
+			}
+		}
 		captured = append(captured, captVar{fv.Name(), cell})
 		u.entryNames[fv.Name()] = x.loadVia(st, x.ptrOf(cell))
 	}
